@@ -16,41 +16,72 @@ From PF Require Import Gen.Tables Lib.ListX Model.Ragged Model.Mapper Model.Mapp
   Model.ConverterSpec Proofs.MapperProofs Proofs.ConverterProofs Legacy.MapperLegacy.
 Import ListNotations.
 
-(* ---- index labels are never read ------------------------------------------ *)
-(* Same columns, index of the same length, labels of any two types: identical
-   result (TensorFrame or raise).  Covers relabelling to offsets, shuffled
-   labels, strings and duplicated labels: the labels are arbitrary lists. *)
-Theorem relabel_invariant : forall (L L' : Type) target (df : frame L) (df' : frame L'),
+(* ---- index labels do not matter ------------------------------------------ *)
+(* Labels are values of a type L with an equality test `leqb` that the model's
+   keyed pandas operations use (Model/Mapper.v, Section Keyed: ser[label],
+   boolean-mask alignment, value_counts().reindex, the index of a merge result).
+   So a definition in this framework CAN depend on labels -- the pre-fix code
+   does, see the two `legacy_*` theorems -- and the theorem below is about the
+   pipelines as written today: the sequence mapper's boolean mask carries the
+   series' own index (so it is applied positionally), the categorical and
+   multicategorical mappers reset the index before their keyed bookkeeping.
+   Same columns (cells AND the statistics / configuration the converter was
+   given -- that the statistics themselves do not depend on labels is observed by
+   harness/c02.py, not proved here), index of the same length, labels of any two
+   types with reflexive equality tests: identical result (TensorFrame or raise).
+   Offsets, shuffled labels, strings, duplicated labels are all just label lists. *)
+Theorem relabel_invariant : forall (L L' : Type) (leqb : L -> L -> bool) (leqb' : L' -> L' -> bool) target
+  (df : frame L) (df' : frame L'),
+  leqb_refl leqb -> leqb_refl leqb' ->
   f_cols df = f_cols df' -> length (f_index df) = length (f_index df') ->
-  convert target df = convert target df'.
+  convert leqb target df = convert leqb' target df'.
 Proof. intros. apply convert_relabel; assumption. Qed.
 Print Assumptions relabel_invariant.
 
 (* per column: the mapper output is a function of the cell values alone *)
-Theorem column_encoding_ignores_labels : forall (L L' : Type) (idx : list L) (idx' : list L') c,
-  length idx = length idx' -> encode_col idx c = encode_col idx' c.
-Proof. intros. apply encode_col_relabel. assumption. Qed.
+Theorem column_encoding_ignores_labels : forall (L L' : Type) (leqb : L -> L -> bool) (leqb' : L' -> L' -> bool)
+  (idx : list L) (idx' : list L') c,
+  leqb_refl leqb -> leqb_refl leqb' ->
+  length idx = length idx' -> encode_col leqb idx c = encode_col leqb' idx' c.
+Proof. intros. apply encode_col_relabel; assumption. Qed.
 Print Assumptions column_encoding_ignores_labels.
 
-(* the label-reading versions of the code this replaced are refuted on computed
-   witnesses (documentation of the repaired defects D2 / D3, Legacy/MapperLegacy.v):
-   a frame with a duplicated label, and an offset index without label 0 *)
+(* the one place where the caller's labels reach a keyed operation today: the
+   boolean mask of the sequence mapper.  Its closed form, for any reflexive leqb *)
+Theorem sequence_mask_is_positional : forall (L : Type) (leqb : L -> L -> bool) (s : @series L seq_cell),
+  leqb_refl leqb ->
+  sequence_forward leqb s =
+  (lens <- mapM get_sequence_length (ser_values s) ;;
+   mk_mnt num (length (ser_values s)) 1 (concat (map seq_list (ser_values s))) (cumsum (0 :: lens))).
+Proof. intros. apply sequence_forward_values. assumption. Qed.
+Print Assumptions sequence_mask_is_positional.
+
+(* The label-keyed versions of the code this replaced, in the same framework
+   (Legacy/MapperLegacy.v, repaired defects D2 / D3), are NOT invariant: computed
+   witnesses with a duplicated label / an offset index without label 0. *)
 Theorem legacy_label_keyed_offsets_refuted :
-  multicategorical_encode [VStr [97%Z]] None dup_series = Some [[SInt 0]; [SInt 0]] /\
-  multicategorical_forward_legacy [VStr [97%Z]] None dup_series = None.
+  multicategorical_encode true [VStr [97%Z]] None dup_series = Some [[SInt 0]; [SInt 0]] /\
+  multicategorical_forward_legacy Nat.eqb [VStr [97%Z]] None dup_series = None.
 Proof. exact multicat_dup_labels_refuted. Qed.
 Print Assumptions legacy_label_keyed_offsets_refuted.
 
+Theorem legacy_pipeline_not_relabel_invariant :
+  ser_values dup_series = ser_values range_series /\
+  multicategorical_forward_legacy Nat.eqb [VStr [97%Z]] None dup_series
+    <> multicategorical_forward_legacy Nat.eqb [VStr [97%Z]] None range_series.
+Proof. exact multicat_legacy_not_relabel_invariant. Qed.
+Print Assumptions legacy_pipeline_not_relabel_invariant.
+
 Theorem legacy_emb_dim_by_label_refuted :
   let s := [(100, [NFin 1; NFin 2]); (101, [NFin 3; NFin 4])] in
-  emb_dim_positional s = Some 2 /\ emb_dim_legacy s = None.
+  emb_dim_positional s = Some 2 /\ emb_dim_legacy Nat.eqb 0 s = None.
 Proof. exact emb_dim_label_refuted. Qed.
 Print Assumptions legacy_emb_dim_by_label_refuted.
 
 (* ---- positional: cell (i, j) of every group is the canonical encoding of the
         i-th raw cell of the column named names[j]; every column has len(df) rows *)
-Theorem positional_cells : forall (L : Type) target (df : frame L) t k names fc,
-  frame_wf df -> convert target df = Some t ->
+Theorem positional_cells : forall (L : Type) (leqb : L -> L -> bool) target (df : frame L) t k names fc,
+  leqb_refl leqb -> frame_wf df -> convert leqb target df = Some t ->
   sd_get (tf_names t) k = Some names -> sd_get (tf_feats t) k = Some (FCols fc) ->
   Forall2 (fun nm col => exists c, get_col (f_cols df) nm = Some c /\ canonical_col c col /\
                                    length col = length (f_index df)) names fc.
@@ -58,9 +89,9 @@ Proof. intros. eapply convert_positional; eassumption. Qed.
 Print Assumptions positional_cells.
 
 (* names and feature columns are aligned in every group, also after merging *)
-Theorem names_and_features_aligned : forall (L : Type) target (df : frame L) t,
-  convert target df = Some t -> aligned (encode_col (f_index df)) (f_cols df) t.
-Proof. intros L target df t H. exact (convert_aligned _ _ _ _ H). Qed.
+Theorem names_and_features_aligned : forall (L : Type) (leqb : L -> L -> bool) target (df : frame L) t,
+  convert leqb target df = Some t -> aligned (encode_col leqb (f_index df)) (f_cols df) t.
+Proof. intros L leqb target df t H. exact (convert_aligned _ _ _ _ H). Qed.
 Print Assumptions names_and_features_aligned.
 
 (* ---- canonical schema ------------------------------------------------------ *)
@@ -88,44 +119,45 @@ Print Assumptions sorted_permutation_unique.
    image_embedded are gone, embedding holds its own columns followed by the
    text-embedded and then the image-embedded ones, every other group is the
    constructor's; y is the target column's encoding (None without target) *)
-Theorem schema : forall (L : Type) target (df : frame L) t,
-  convert target df = Some t ->
+Theorem schema : forall (L : Type) (leqb : L -> L -> bool) target (df : frame L) t,
+  convert leqb target df = Some t ->
   let N := init_names (f_cols df) target in
   sd_get (tf_names t) st_text_embedded = None /\
   sd_get (tf_names t) st_image_embedded = None /\
   sd_get (tf_names t) st_embedding = merged_embedding_names N /\
   (forall k, k <> st_embedding -> k <> st_text_embedded -> k <> st_image_embedded ->
              sd_get (tf_names t) k = sd_get N k) /\
-  target_y (encode_col (f_index df)) (f_cols df) target = Some (tf_y t).
-Proof. intros L target df t H. exact (convert_schema _ _ _ _ H). Qed.
+  target_y (encode_col leqb (f_index df)) (f_cols df) target = Some (tf_y t).
+Proof. intros L leqb target df t H. exact (convert_schema _ _ _ _ H). Qed.
 Print Assumptions schema.
 
 (* grouped by (parent) stype, complete, and the target never among the features:
    nm is listed under group k  <=>  nm is a non-target column whose stype's parent is k *)
-Theorem grouped_by_stype_target_absent : forall (L : Type) target (df : frame L) t k nm,
-  convert target df = Some t ->
+Theorem grouped_by_stype_target_absent : forall (L : Type) (leqb : L -> L -> bool) target (df : frame L) t k nm,
+  convert leqb target df = Some t ->
   (In nm (dflt (sd_get (tf_names t) k)) <->
    exists st, In (nm, st) (col_to_stype_of (f_cols df)) /\ is_target target nm = false /\ stype_parent st = k).
-Proof. intros L target df t k nm H. exact (convert_names_grouped _ _ _ _ k nm H). Qed.
+Proof. intros L leqb target df t k nm H. exact (convert_names_grouped _ _ _ _ k nm H). Qed.
 Print Assumptions grouped_by_stype_target_absent.
 
-Theorem names_sorted_within_group : forall (L : Type) target (df : frame L) t k l,
-  convert target df = Some t -> k <> st_embedding -> sd_get (tf_names t) k = Some l -> StronglySorted name_le l.
-Proof. intros L target df t k l H. exact (convert_names_sorted _ _ _ _ k l H). Qed.
+Theorem names_sorted_within_group : forall (L : Type) (leqb : L -> L -> bool) target (df : frame L) t k l,
+  convert leqb target df = Some t -> k <> st_embedding -> sd_get (tf_names t) k = Some l -> StronglySorted name_le l.
+Proof. intros L leqb target df t k l H. exact (convert_names_sorted _ _ _ _ k l H). Qed.
 Print Assumptions names_sorted_within_group.
 
-Theorem embedding_group_is_three_sorted_runs : forall (L : Type) target (df : frame L) t l,
-  convert target df = Some t -> sd_get (tf_names t) st_embedding = Some l ->
+Theorem embedding_group_is_three_sorted_runs : forall (L : Type) (leqb : L -> L -> bool) target (df : frame L) t l,
+  convert leqb target df = Some t -> sd_get (tf_names t) st_embedding = Some l ->
   exists e te ie, l = e ++ te ++ ie /\
     StronglySorted name_le e /\ StronglySorted name_le te /\ StronglySorted name_le ie /\
     e = dflt (sd_get (init_names (f_cols df) target) st_embedding) /\
     te = dflt (sd_get (init_names (f_cols df) target) st_text_embedded) /\
     ie = dflt (sd_get (init_names (f_cols df) target) st_image_embedded).
-Proof. intros L target df t l H. exact (convert_embedding_runs _ _ _ _ l H). Qed.
+Proof. intros L leqb target df t l H. exact (convert_embedding_runs _ _ _ _ l H). Qed.
 Print Assumptions embedding_group_is_three_sorted_runs.
 
-Theorem no_target_no_y : forall (L : Type) (df : frame L) t, convert None df = Some t -> tf_y t = None.
-Proof. intros L df t H. exact (convert_no_target df t H). Qed.
+Theorem no_target_no_y : forall (L : Type) (leqb : L -> L -> bool) (df : frame L) t,
+  convert leqb None df = Some t -> tf_y t = None.
+Proof. intros L leqb df t H. exact (convert_no_target leqb df t H). Qed.
 Print Assumptions no_target_no_y.
 
 (* ---- column order ----------------------------------------------------------- *)
@@ -147,11 +179,11 @@ Print Assumptions schema_column_perm_invariant.
    a tokenizer returning a dict without keys raises only if text_tokenized
    comes first.)  Success transfer is observed by the oracle and the
    correspondence of harness/c02.py on every generated frame. *)
-Theorem column_perm_invariant_partial : forall (L : Type) (idx : list L) target cols cols' t t',
+Theorem column_perm_invariant_partial : forall (L : Type) (leqb : L -> L -> bool) (idx : list L) target cols cols' t t',
   NoDup (map fst cols) -> Permutation cols cols' ->
-  convert target (MkFrame idx cols) = Some t -> convert target (MkFrame idx cols') = Some t' ->
+  convert leqb target (MkFrame idx cols) = Some t -> convert leqb target (MkFrame idx cols') = Some t' ->
   tf_equiv t t'.
-Proof. intros L idx target cols cols' t t' ND P H H'. exact (convert_column_perm _ _ _ _ _ _ ND P H H'). Qed.
+Proof. intros L leqb idx target cols cols' t t' ND P H H'. exact (convert_column_perm _ _ _ _ _ _ ND P H H'). Qed.
 Print Assumptions column_perm_invariant_partial.
 
 (* ---- task type and class count ---------------------------------------------- *)
@@ -194,28 +226,29 @@ Definition ex_cols : list (name * rawcol) :=
 Definition ex_df : frame pval := MkFrame [VStr [114]; VStr [114]] ex_cols.    (* labels "r", "r" *)
 
 Example convert_example :
-  frame_wf ex_df /\ NoDup (map fst ex_cols) /\
-  exists t, convert (Some (nm [121])) ex_df = Some t /\
+  frame_wf ex_df /\ NoDup (map fst ex_cols) /\ leqb_refl pval_eqb /\
+  exists t, convert pval_eqb (Some (nm [121])) ex_df = Some t /\
     tf_names t = [ (st_numerical, [nm [97]; nm [98]]);
                    (st_embedding, [nm [100]; nm [101]; nm [122]; nm [105]]) ] /\
     tf_y t = Some (ECol [[SInt 1]; [SInt 0]]) /\
     sd_get (tf_feats t) st_numerical = Some (FCols [[[SNum NPosInf]; [SNum (NFin (-8))]]; [[SNum (NFin 8)]; [SNum NNaN]]]) /\
     task_type_of (RCat [VStr [117]; VStr [118]] [Some (VStr [118]); Some (VStr [117])]) = Some task_BINARY_CLASSIFICATION.
 Proof.
-  split; [|split].
+  split; [|split; [|split]].
   - unfold frame_wf, ex_df, ex_cols. cbn [f_cols f_index snd].
     repeat (apply Forall_cons; [split; [reflexivity|]|]); try apply Forall_nil; cbn [rawcol_ok snd]; try exact I.
     all: try (exists 1%nat; repeat constructor; fail).
     all: try (exists 2%nat; repeat constructor; fail).
     all: repeat constructor; simpl; intuition discriminate.
   - repeat constructor; simpl; intuition discriminate.
+  - exact pval_eqb_refl.
   - eexists. split; [vm_compute; reflexivity|]. repeat split; vm_compute; reflexivity.
 Qed.
 
 Example column_perm_example :
   Permutation ex_cols (rev ex_cols) /\
-  exists t t', convert (Some (nm [121])) ex_df = Some t /\
-               convert (Some (nm [121])) (MkFrame [VInt 5; VInt 6] (rev ex_cols)) = Some t' /\
+  exists t t', convert pval_eqb (Some (nm [121])) ex_df = Some t /\
+               convert pval_eqb (Some (nm [121])) (MkFrame [VInt 5; VInt 6] (rev ex_cols)) = Some t' /\
                tf_names t <> tf_names t' /\ tf_equiv t t'.
 Proof.
   split; [apply Permutation_rev|]. eexists. eexists. split; [vm_compute; reflexivity|].
